@@ -52,10 +52,25 @@ def gen_input_from(rng, TABLES, COLUMNS, QNAMES, benign):
         lines.append("CREATE TABLE %s (%s);" % (q(t), ", ".join("%s %s" % (q(c), rng.choice(coltypes)) for c in cs)))
     queries = []
     names = rng.sample(QNAMES, rng.randint(1, 4))
+    class _S:           # the schema as the statement generator of the query properties wants it
+        pass
+    gs = _S()
+    gs.tables = {q(t): [q(c) for c in cols[t]] for t in tabs}
+    gs.rng = rng
     for nm in names:
         t = rng.choice(tabs)
         cs = cols[t]
         kind = rng.random()
+        if rng.random() < 0.2:
+            # a statement of the full supported grammar (joins, sub-selects over the same table, CTEs, set operations,
+            # repeated placeholders): whatever the compiler accepts must come out as Go that compiles
+            from qcommon import QGen
+            sql, k_ = QGen(rng, gs, named="pos").statement()
+            cmd = rng.choice(["one", "many"]) if k_ in ("select", "cte") else rng.choice(["exec", "execrows", "many", "one"])
+            if k_ not in ("select", "cte") and cmd in ("one", "many") and "RETURNING" not in sql:
+                cmd = "exec"
+            queries.append("-- name: %s :%s\n%s;" % (nm, cmd, sql))
+            continue
         c1, c2 = rng.choice(cs), rng.choice(cs)
         if benign and c1 == c2 and len(cs) > 1:
             c2 = [c for c in cs if c != c1][0]
@@ -279,6 +294,18 @@ def run(tier, seed):
                     qnames = re.findall(r"-- name: (\S+)", inputs[i]["query.sql"] + inputs[i].get("more.sql", ""))
                     if wf in (1, 2) and len(qnames) != len(set(qnames)):
                         klass = None      # the same query name twice must have been rejected, not generated
+                    if wf == 2:
+                        # two fields / methods of one name on a type: known only (a) for a query named like a method or field of
+                        # Queries itself, (b) for a params struct whose query passes one placeholder twice to one function call
+                        # (C03's finding: two Parameters with one number, hence one field name twice)
+                        allq = inputs[i]["query.sql"] + inputs[i].get("more.sql", "")
+                        twice = any(len(re.findall(r"\$%s\b" % n_, args)) > 1 for args in re.findall(r"\w+\(([^()]*)\)", allq) for n_ in set(re.findall(r"\$(\d+)", args)))
+                        if any(nm_ in ("WithTx", "Close", "Prepare", "db", "exec", "query", "queryRow", "prepare", "tx") for nm_ in qnames):
+                            klass = "duplicate_method_or_field"
+                        elif twice:
+                            klass = "duplicate_params_field_for_placeholder_twice_in_one_call"
+                        else:
+                            klass = None
                     if wf == 3:
                         # known only for array types of bare (non-struct) parameters / results
                         for fname, f in res[i]["summary"].items():
